@@ -15,7 +15,7 @@ RULE = ('per case 1-3 send requests (source role through Agent.send_bundle, or r
         'unfragmented encoding for comparison. Fragments leave through idle callbacks interleaved by the scheduler. Non-trivial: the '
         'unfragmented encoding exceeds the MTU; distinct = digest of the request descriptors.')
 COMPONENTS = bc.COMPONENTS
-PROBES = ('case.fragmented', 'case.fits', 'case.no_fragment_flag', 'case.is_fragment', 'case.impossible', 'case.relay', 'case.with_bib', 'case.replicate_block', 'case.mtu_just_below_size',
+PROBES = ('case.fragmented', 'case.fits', 'case.no_fragment_flag', 'case.is_fragment', 'case.impossible', 'case.relay', 'case.with_bib', 'case.replicate_block', 'case.mtu_just_below_size', 'case.report', 'case.report_fragmented',
           'frag.count_ge_3')
 ASSUMPTIONS = ['MTU means encoded bundle length', 'a do-not-fragment bundle larger than the MTU is, per the statement, sent unchanged']
 CHUNK = 15
@@ -56,7 +56,13 @@ def gen(ch, tier):
                          pri_crc=ch.pick('pc', 3), pay_crc=ch.pick('yc', 3), blocks=blocks,
                          dest=ch.choice('dst', ('dtn://far/app', 'ipn:77.1')),
                          ctime=ch.choice('ctime', (820000000000, 820000000000, 0)), frag_offset=ch.choice('foff', (10, 0))))
-    return dict(scenario='bp_fragment', reqs=reqs, bib=ch.coin('bib', 1, 4))
+    bib = ch.coin('bib', 1, 4)
+    report = None
+    if ch.coin('rpt', 1, 4):
+        # reception / delivery / (0x40: with status time) reports requested by a bundle whose report-to lies behind a small MTU
+        report = dict(mtu=60 + ch.pick('rpt.mtu', 90), flags=ch.choice('rpt.flags', (0x4000, 0x4000 | 0x20000, 0x4000 | 0x40, 0x20000)),
+                      plen=ch.choice('rpt.plen', (1, 30)), src=ch.choice('rpt.src', ('dtn://src/', 'ipn:977000.3.1', 'dtn://a-rather-long-source-node-name/svc')))
+    return dict(scenario='bp_fragment', reqs=reqs, bib=bib, report=report)
 
 
 def _security(plan):
@@ -137,6 +143,10 @@ def execute(plan, sched, verbose=False):
         # twin without MTU and the node under test, one pair per request so that requests do not share timestamps
         nodes['u%d' % ix] = dict(node_id='dtn://n1/', rx_routes=[['.*', 'forward']], tx_routes=[['.*', 'dtn://next/', None, None]], security=sec)
         nodes['m%d' % ix] = dict(node_id='dtn://n1/', rx_routes=[['.*', 'forward']], tx_routes=[['.*', 'dtn://next/', req['mtu'], None]], security=sec)
+    if plan.get('report'):
+        # a node whose own status reports have to travel over a small-MTU route
+        nodes['r'] = dict(node_id='dtn://n1/', rx_routes=[['^dtn://n1/.*$', 'deliver']],
+                          tx_routes=[['^dtn://rpt/.*$', 'dtn://rpt/', plan['report']['mtu'], None], ['.*', 'dtn://next/', None, None]])
     har = bp_net.BpHarness(dict(nodes=nodes), sched, verbose)
     run = Run()
     run.har = har
@@ -146,6 +156,8 @@ def execute(plan, sched, verbose=False):
     run.stats = {}
     try:
         _drive(run, plan, har)
+        if plan.get('report') and not run.viols:
+            _drive_report(run, plan['report'], har)
     finally:
         har.close()
     return run
@@ -261,6 +273,46 @@ def _drive(run, plan, har):
                     run.viols.append(('ext-blocks', kind + ('-with-bib' if plan['bib'] else ''), '%s: fragment at offset %d carries block types %r, expected %r' % (
                         where, off, [item[0] for item in got], [item[0] for item in want])))
                     break
+
+
+def _drive_report(run, rpt, har):
+    ''' The status reports a node generates are bundles like any other: over a route with an MTU they leave within it, as
+    fragments that tile the report, or not at all when nothing fits. '''
+    pri = dict(flags=rpt['flags'], crc_type=1, destination='dtn://n1/app', source=rpt['src'], report_to='dtn://rpt/collector',
+               create_time=820000000000, seqno=77, lifetime=3600000)
+    data = rfc9171.encode_bundle(pri, [dict(type=1, num=1, flags=0, crc_type=0, btsd=bc.body(99, rpt['plen']))])
+    har.receive('r', data)
+    har.settle()
+    (decoded, errs) = bc.decode_outputs(har.cl_out['r'])
+    where = 'status report over a route with MTU %d (subject flags 0x%x, source %s)' % (rpt['mtu'], rpt['flags'], rpt['src'])
+    if errs:
+        run.viols.append(('wellformed', 'undecodable-output', '%s: %s' % (where, errs[0][1])))
+        return
+    run.stats['case.report'] = 1
+    over = [dec['size'] for dec in decoded if dec['size'] > rpt['mtu']]
+    if over:
+        whole = any(not dec['primary']['flags'] & rfc9171.FLAG_IS_FRAGMENT for dec in decoded)
+        run.viols.append(('oversize', 'report-%s' % ('unfragmented' if whole else 'fragment'), '%s: transmitted sizes %r exceed the MTU' % (where, over)))
+        return
+    frags = [dec for dec in decoded if dec['primary']['flags'] & rfc9171.FLAG_IS_FRAGMENT]
+    if frags:
+        run.stats['case.report_fragmented'] = 1
+        groups = {}
+        for dec in frags:
+            groups.setdefault(rfc9171.ident(dec['primary'])[:3], []).append(dec)
+        for (key, group) in sorted(groups.items()):
+            group.sort(key=lambda dec: dec['primary']['frag_offset'])
+            pos = 0
+            total = group[0]['primary']['total_adu_len']
+            for dec in group:
+                if dec['primary']['frag_offset'] != pos or dec['primary']['total_adu_len'] != total or not rfc9171.payload(dec):
+                    run.viols.append(('tiling', 'report-fragments', '%s: fragment offsets %r of total %r do not tile the report' % (
+                        where, [(item['primary']['frag_offset'], len(rfc9171.payload(item))) for item in group], total)))
+                    return
+                pos += len(rfc9171.payload(dec))
+            if pos != total:
+                run.viols.append(('tiling', 'report-incomplete', '%s: report fragments cover %d of %d octets' % (where, pos, total)))
+                return
 
 
 def judge(run):
